@@ -116,13 +116,15 @@ pub fn glob_match(pat: &str, text: &str) -> bool {
     let (mut pi, mut ti) = (0usize, 0usize);
     let (mut star, mut mark) = (None, 0usize);
     while ti < t.len() {
-        if pi < p.len() && (p[pi] == '?' || p[pi] == t[ti]) {
-            pi += 1;
-            ti += 1;
-        } else if pi < p.len() && p[pi] == '*' {
+        // The wildcard branch must come first: a `*` in the PATTERN is always a
+        // wildcard, even when the text happens to contain a literal `*` here.
+        if pi < p.len() && p[pi] == '*' {
             star = Some(pi);
             mark = ti;
             pi += 1;
+        } else if pi < p.len() && (p[pi] == '?' || p[pi] == t[ti]) {
+            pi += 1;
+            ti += 1;
         } else if let Some(s) = star {
             pi = s + 1;
             mark += 1;
